@@ -180,8 +180,9 @@ def iface_mutants(rng, host):
         for h in part(q)["handlers"]:
             h["ret_err"] = "std"
         out.append(("iface-no-error", q, pid, ["Missing `Error` type"]))
-    q = _clone(host); part(q)["raw_attrs"] = ["#[sv::custom(mesg=Empty)]"]
-    out.append(("iface-custom-unknown-arg", q, pid, ["Invalid custom type"]))
+    if base.get("custom_mode") != "fixed":  # a `fixed` interface already carries one sv::custom: a second one is another rule
+        q = _clone(host); part(q)["raw_attrs"] = ["#[sv::custom(mesg=Empty)]"]
+        out.append(("iface-custom-unknown-arg", q, pid, ["Invalid custom type"]))
     q = _clone(host); part(q)["raw_attrs"] = ["#[sv::msg_attr(instantiatez, derive(Default))]"]
     out.append(("iface-msg_attr-unknown-kind", q, pid, ["Invalid message type"]))
     hs = base["handlers"]
